@@ -38,9 +38,9 @@ func (readSched) Runs(tier string) int64 {
 
 func (readSched) Meta() core.EngineMeta {
 	return core.EngineMeta{
-		Rule: "One reference stream is read through many SimReaders that differ only in read schedule (fixed chunk sizes 1..400, seeded chunk lists, one chunk boundary at a seeded offset of the first 400 bytes, EOF delivered together with the last bytes), reader kind (seekable, real bufio.Reader, plain), packet size option (explicit or auto-detected) and framing (188+k bytes, k in {1..4,16}, explicit; auto-detected for 189..192). NextPacket and NextData sequences are compared with the canonical run (explicit 188, one big read); plain readers with auto-detection are compared with each other only (the library documents that it re-synchronises by consuming packets). evaluations = demux executions; distinct = (reader kind, auto, k, chunk-plan class, stream shape class); non-trivial = a read boundary fell inside a packet.",
-		Real: []string{"astits.Demuxer and everything below it", "bufio.Reader"},
-		Stub: []string{"refts reference multiplexer and 188+k re-framer", "SimReader (short reads per plan)"},
+		Rule:       "One reference stream is read through many SimReaders that differ only in read schedule (fixed chunk sizes 1..400, seeded chunk lists, one chunk boundary at a seeded offset of the first 400 bytes, EOF delivered together with the last bytes), reader kind (seekable, real bufio.Reader, plain), packet size option (explicit or auto-detected) and framing (188+k bytes, k in {1..4,16}, explicit; auto-detected for 189..192). NextPacket and NextData sequences are compared with the canonical run (explicit 188, one big read); plain readers with auto-detection are compared with each other only (the library documents that it re-synchronises by consuming packets). evaluations = demux executions; distinct = (reader kind, auto, k, chunk-plan class, stream shape class); non-trivial = a read boundary fell inside a packet.",
+		Real:       []string{"astits.Demuxer and everything below it", "bufio.Reader"},
+		Stub:       []string{"refts reference multiplexer and 188+k re-framer", "SimReader (short reads per plan)"},
 		FaultKinds: []string{"short-read", "one-byte-reads", "boundary-in-first-400", "eof-with-data", "kind-bufio", "kind-plain", "auto-detect", "frame-188+k"},
 		Assumptions: []string{
 			"auto-detection needs at least two packets and, for sizes above 188, no 0x47 among bytes 188..size-1 of the stream (inherent to the heuristic); bufio buffers are at least 256 bytes",
